@@ -139,18 +139,19 @@ type bscript struct {
 }
 
 type rreq struct {
-	id      int
-	method  string
-	path    string // raw (escaped) path after the site, starting with the proxy base
-	query   string
-	hdrs    [][2]string
-	body    []byte
-	chunked bool
-	cl      *hclient
-	script  *bscript
-	got     *wireReq // what the backend received
-	srcIP   string
-	aborted bool
+	brokenBody bool // the chunked encoding of the body is broken
+	id         int
+	method     string
+	path       string // raw (escaped) path after the site, starting with the proxy base
+	query      string
+	hdrs       [][2]string
+	body       []byte
+	chunked    bool
+	cl         *hclient
+	script     *bscript
+	got        *wireReq // what the backend received
+	srcIP      string
+	aborted    bool
 }
 
 type bpeer struct {
@@ -262,14 +263,6 @@ func setupRelayProxy(c *casket.Controller) error {
 				}
 				if rig.cleanup {
 					return nil, fmt.Errorf("sim: backend gone")
-				}
-				for _, q := range rig.reqs {
-					// the client of this request has reset its connection meanwhile: the cancelled
-					// round trip would open the connection, write some of the request and drop it
-					// again, how much being a race inside net/http
-					if fmt.Sprint(q.id) == id && q.cl != nil && q.cl.aborted {
-						return nil, fmt.Errorf("sim: the client of request %s is gone", id)
-					}
 				}
 				if rig.deadFirst && strings.HasPrefix(addr, "10.7.0.1:") {
 					rig.c.Fault("backend-connection-refused")
@@ -663,7 +656,7 @@ func runRelayIn(c *sim.Ctl, mode string) {
 		// no backend misbehaved in this run: whatever the clients did, nothing counts against the backend
 		for i, h := range r.uhosts {
 			if n := atomic.LoadInt32(&h.Fails); n != 0 {
-				c.Violate("C14/client-abort-counted-as-backend-failure", "", "backend %d has a failure count of %d although it answered every request it got in full; the only faults were clients resetting their connection mid-request", i, n)
+				c.Violate("C14/client-fault-counted-as-backend-failure", "", "backend %d has a failure count of %d although it answered every request it got in full; the only faults were clients resetting their connection mid-request or sending a broken chunked body", i, n)
 			}
 		}
 		c.Probe("failure-count-after-client-aborts-checked")
@@ -833,6 +826,13 @@ func (r *relayRig) addReq(i int) {
 			all = append(all, rest[:k]...)
 			all = append(all, '\r', '\n')
 			rest = rest[k:]
+		}
+		if r.countFails && len(q.body) > 0 && st.Draw(4) == 0 {
+			// a client whose chunked encoding is broken: a chunk-size line that is no number
+			all = append(all, []byte("ZZ\r\nrest\r\n")...)
+			q.aborted = true // (judged like a client that does not complete its request)
+			q.brokenBody = true
+			r.c.Fault("client-sends-broken-chunked-body")
 		}
 		all = append(all, []byte("0\r\n\r\n")...)
 	} else {
